@@ -109,9 +109,12 @@ def sinrNum {n t : Nat} (uH : Mat α 1 n) (G : Mat α n t) (v : Mat α t 1) : α
 def sinrDen {n : Nat} (uH : Mat α 1 n) (u : Mat α n 1) (B : Mat α n n) : α :=
   item (matMul uH (matMul B u))
 
-/-- one pass of the loop body of `_calc_SINR_k` (all three copies of it):
-    `SINR_kl = numerator.item() / denominator.item()` on Python scalars — a zero
-    denominator raises `ZeroDivisionError` — then `np.abs(SINR_kl)` -/
+/-- one pass of the loop body of `_calc_SINR_k` (all three copies of it): the quotient
+    `numerator / denominator`, then `np.abs`.  The outcome `.error .ZeroDivisionError` is
+    the tag "the denominator is exactly zero — no SINR value": the channel object divides
+    Python scalars (`numerator.item() / denominator.item()`) and raises
+    `ZeroDivisionError`; the IA solver divides with `np.divide` and puts a non-finite
+    number (`inf` for `x/0`, `nan` for `0/0`) into that entry. -/
 def sinrCore {n t : Nat} (uH : Mat α 1 n) (u : Mat α n 1) (G : Mat α n t) (v : Mat α t 1)
     (B : Mat α n n) : Except PyErr ρ :=
   if sinrDen uH u B == 0 then .error .ZeroDivisionError
@@ -239,11 +242,20 @@ end solver
 section aggregate
 variable {ρ : Type}
 
-/-- the double loop `for k in range(K): … for l in range(Ns_k): …`; the first
-    failing entry raises -/
+/-- the double loop `for k in range(K): … for l in range(Ns_k): …` read as ONE outcome:
+    all the values if every entry has one, else the tag of the first entry without a value.
+    Channel object: `calc_SINR` raises at that entry.  IA solver: no entry raises (see
+    `eachStream`), the tag says "the result holds a non-finite entry" — which is also what
+    makes `calc_sum_capacity` non-finite. -/
 def allStreams {K : Nat} (S : Fin K → Nat) (f : (k : Fin K) → Fin (S k) → Except PyErr ρ) :
     Except PyErr (List (List ρ)) :=
   (List.finRange K).mapM (fun k => (List.finRange (S k)).mapM (fun l => f k l))
+
+/-- `IASolverBaseClass.calc_SINR`: every entry is computed, none raises; an entry whose
+    denominator vanishes carries the tag (a non-finite number in the code) -/
+def eachStream {K : Nat} (S : Fin K → Nat) (f : (k : Fin K) → Fin (S k) → Except PyErr ρ) :
+    List (List (Except PyErr ρ)) :=
+  (List.finRange K).map (fun k => (List.finRange (S k)).map (fun l => f k l))
 
 variable [Zero ρ] [One ρ] [Add ρ] [Mul ρ] [OfNat ρ 10] [RFun ρ]
 
@@ -297,5 +309,25 @@ def blockOf (big : Nat → Nat → α) (r0 c0 m n : Nat) : Mat α m n :=
   fun a b => big (r0 + a.val) (c0 + b.val)
 
 end views
+
+/-! ## long-lived objects
+
+The channel object and the solver keep caches (`_H_with_pathloss`,
+`_big_H_with_pathloss`, `_pathloss_big_matrix`, `_full_F`, `_full_W_H`, …) that the
+public setters (`init_from_channel_matrix`, `randomize`, `set_pathloss`, `noise_var`,
+`set_post_filter`, `set_precoders`, `set_receive_filters`) must invalidate.  The model
+has no caches: an object IS its current inputs, a setter replaces part of them, and
+every report is a function of the current inputs. -/
+section session
+variable {ι β : Type}
+
+/-- the inputs an object holds after a history of setter calls -/
+def afterHistory (i0 : ι) (setters : List (ι → ι)) : ι := setters.foldl (fun i f => f i) i0
+
+/-- what the object reports after the history -/
+def reportAfter (report : ι → β) (i0 : ι) (setters : List (ι → ι)) : β :=
+  report (afterHistory i0 setters)
+
+end session
 
 end PyPhysim.Sinr
